@@ -123,6 +123,7 @@ _TRACE = bool(_os.environ.get("PYVC_TRACE"))
 _STMT = bool(_os.environ.get("PYVC_STMT"))
 QUICK_TIMEOUT_MS = 20000
 Z3_FIRST_MS = 1500
+_PREFER = {}          # obligation name -> back end that discharged it last time (ordering hint only)
 FEAS_TIMEOUT_MS = 250
 
 
@@ -332,14 +333,24 @@ class Engine:
         # portfolio: z3 with a short budget first (it answers most obligations -- and all refutations -- at once),
         # then cvc5 on the same assertions, then z3 with the full budget
         quick = min(self.timeout_ms, Z3_FIRST_MS)
-        s.set("timeout", quick)
-        r = s.check()
         backend = "z3"
-        if r != z3.sat and r != z3.unsat and not _os.environ.get("PYVC_NO_SECOND"):
-            st2, be2, dt2 = backends.second_opinion(self.facts, goal, self.timeout_ms)
+        r = z3.unknown
+        if _PREFER.get(name) == "cvc5" and not _os.environ.get("PYVC_NO_SECOND"):
+            # this clause was last discharged by cvc5 after z3 gave up: ask cvc5 first
+            st2, be2, dt2 = backends.second_opinion(self.facts, goal, min(self.timeout_ms, 5000))
             if st2 == "proved":
                 r = z3.unsat
                 backend = be2
+        if r != z3.unsat:
+            s.set("timeout", quick)
+            r = s.check()
+            backend = "z3"
+            if r != z3.sat and r != z3.unsat and not _os.environ.get("PYVC_NO_SECOND"):
+                st2, be2, dt2 = backends.second_opinion(self.facts, goal, self.timeout_ms)
+                if st2 == "proved":
+                    r = z3.unsat
+                    backend = be2
+                    _PREFER[name] = "cvc5"
         if r != z3.sat and r != z3.unsat and self.timeout_ms > quick:
             s.set("timeout", self.timeout_ms)
             r = s.check()
